@@ -1,24 +1,32 @@
 #!/usr/bin/env python3
-"""Regenerates the seeded-changes table of DESIGN.md (between the SEED-TABLE markers) from seeded/*/meta.json."""
-import json, glob, re, os
-rows = []
+"""Regenerates the seeded-changes table of DESIGN.md (between the SEED-TABLE markers) from seeded/*/meta.json.
+One line per change; what it needs to manifest, the confirmation runs and the full notes stay in meta.json / notes.md."""
+import json, glob
+def cut(s, n):
+    s = " ".join(s.split()).replace("|", "/")
+    return s if len(s) <= n else s[:n - 1] + "…"
+rows, missed_first, not_detected = [], [], []
 for f in sorted(glob.glob('/verif/seeded/*/meta.json')):
-    m = json.load(open(f))
-    rep = m['check_run']['reported']
+    m = json.load(open(f)); cr = m['check_run']
     sigs = []
-    for r in rep:
+    for r in cr.get('reported', []):
         s = f"{r['world']}: `{r['signature']}`"
-        if s not in sigs:
-            sigs.append(s)
-    det = m['check_run'].get('detected')
-    tier = m['check_run'].get('tier', 'quick')
-    note = m.get('note', '')
-    rows.append(f"| {m['id']} | {m['summary']} | {m['needs_to_manifest']} | {'yes (' + tier + ')' if det else '**no**'} | {'; '.join(sigs[:3])}{(' — ' + note) if note else ''} |")
-table = "| id | change | needs, to manifest | reported by the property's check | signatures (first three) |\n|---|---|---|---|---|\n" + "\n".join(rows) + "\n"
+        if s not in sigs: sigs.append(s)
+    first = m.get('first_evaluation')
+    if 'not counted as a miss' in m.get('note', '') or m.get('breaks_property', '').startswith('C01 (proposed'):
+        now = "n/a (does not break this property; see meta.json)"
+    elif cr.get('detected'):
+        vh, h = cr.get('violating_histories'), cr.get('histories')
+        now = "yes" + (f" ({vh} of {h} histories)" if vh is not None and h else "")
+    else:
+        now = "**no**"; not_detected.append(m['id'])
+    if first: missed_first.append(m['id'])
+    rows.append(f"| {m['id']} | {cut(m['summary'], 130)} | {'missed' if first else 'reported'} | {now} | {sigs[0] if sigs else ''} |")
+table = ("| id | change | first evaluation | property's quick check now (seed 1) | first signature |\n|---|---|---|---|---|\n" + "\n".join(rows) + "\n\n"
+         + f"{len(rows)} changes; missed at their first evaluation and reported after the check was strengthened: {', '.join(missed_first)}.\n")
 p = '/verif/DESIGN.md'
 s = open(p).read()
 a, b = '<!-- SEED-TABLE-BEGIN -->\n', '<!-- SEED-TABLE-END -->'
-if a in s:
-    s = s[:s.index(a) + len(a)] + table + s[s.index(b):]
-    open(p, 'w').write(s)
-print(table)
+s = s[:s.index(a) + len(a)] + table + s[s.index(b):]
+open(p, 'w').write(s)
+print(len(rows), "rows; missed first:", len(missed_first), "; not detected now:", not_detected)
